@@ -52,7 +52,7 @@ Fixpoint longest_from (M : N) (x : list N) (n : nat) : nat :=
 Definition longest_fit (M : N) (x : list N) : nat := longest_from M x (length x).
 
 (* repeatedly take the longest prefix that fits.  [None] = no progress possible
-   (only when M = 0) or fuel exhausted (never: see greedy_spec_total). *)
+   (only when M = 0) or fuel exhausted (never: RleProofs.greedy_spec_total). *)
 Fixpoint greedy_go (fuel : nat) (M : N) (x : list N) : option (list (list N)) :=
   match x with
   | [] => Some []
